@@ -33,15 +33,26 @@ macro_rules! harnesses {
 
 use crate::*;
 
-harnesses! {
-    #[kani::unwind(14)] c12_set_flags => p_c12::set_flags;
-    #[kani::unwind(14)] c12_set_opcode => p_c12::set_opcode;
-    #[kani::unwind(14)] c12_set_rcode => p_c12::set_rcode;
-    #[kani::unwind(14)] c12_set_response => p_c12::set_response;
-    #[kani::unwind(14)] c12_set_tid => p_c12::set_tid;
-    #[kani::unwind(14)] c12_getters => p_c12::getters;
-    #[kani::unwind(10)] names_cc_8 => p_names::check_compressed::<_, 8>;
-    #[kani::unwind(14)] names_cu_12 => p_names::check_uncompressed::<_, 12>;
+#[cfg(feature = "c12")]
+pub mod h_c12 {
+    use super::*;
+    harnesses! {
+        #[kani::unwind(14)] c12_set_flags => p_c12::set_flags;
+        #[kani::unwind(14)] c12_set_opcode => p_c12::set_opcode;
+        #[kani::unwind(14)] c12_set_rcode => p_c12::set_rcode;
+        #[kani::unwind(14)] c12_set_response => p_c12::set_response;
+        #[kani::unwind(14)] c12_set_tid => p_c12::set_tid;
+        #[kani::unwind(14)] c12_getters => p_c12::getters;
+    }
+}
+
+#[cfg(any(feature = "c01", feature = "c02", feature = "c18"))]
+pub mod h_names {
+    use super::*;
+    harnesses! {
+        #[kani::unwind(10)] names_cc_8 => p_names::check_compressed::<_, 8>;
+        #[kani::unwind(14)] names_cu_12 => p_names::check_uncompressed::<_, 12>;
+    }
 }
 
 pub mod gen {
@@ -50,10 +61,38 @@ pub mod gen {
 }
 
 pub fn lookup_any(name: &str) -> Option<Body> {
-    lookup(name).or_else(|| gen::lookup(name))
+    #[cfg(feature = "c12")]
+    if let Some(b) = h_c12::lookup(name) {
+        return Some(b);
+    }
+    #[cfg(any(feature = "c01", feature = "c02", feature = "c18"))]
+    if let Some(b) = h_names::lookup(name) {
+        return Some(b);
+    }
+    gen::lookup(name)
 }
 
 pub fn lookup_sample_any(name: &str) -> Option<SampleBody> {
-    lookup_sample(name).or_else(|| gen::lookup_sample(name))
+    #[cfg(feature = "c12")]
+    if let Some(b) = h_c12::lookup_sample(name) {
+        return Some(b);
+    }
+    #[cfg(any(feature = "c01", feature = "c02", feature = "c18"))]
+    if let Some(b) = h_names::lookup_sample(name) {
+        return Some(b);
+    }
+    gen::lookup_sample(name)
 }
+
+pub fn all_names() -> Vec<&'static str> {
+    let mut v: Vec<&'static str> = Vec::new();
+    #[cfg(feature = "c12")]
+    v.extend_from_slice(h_c12::NAMES);
+    #[cfg(any(feature = "c01", feature = "c02", feature = "c18"))]
+    v.extend_from_slice(h_names::NAMES);
+    v.extend(gen::names());
+    v
+}
+
+
 
